@@ -161,6 +161,7 @@ pub struct PairRun {
     pub layer_active_on_event: bool,
     pub buffered_at_decision: usize,
     pub os_other_key: bool,
+    pub max_held_layers: usize,
     pub real_idle_at_end: bool,
     pub model_quiescent: bool,
 }
@@ -215,6 +216,7 @@ pub fn run_pair(case: &MCase, settle: u64, configure: impl FnOnce(&mut Model)) -
         layer_active_on_event: m.stat_layer_active_on_event,
         buffered_at_decision: m.stat_buffered_at_decision,
         os_other_key: m.stat_os_other_key,
+        max_held_layers: m.stat_max_held_layers,
         model_quiescent: m.is_quiescent(),
     })
 }
